@@ -339,7 +339,8 @@ PROPS["C02"] = {
                           "Failsafe.Props.C02.retry_final_result", "Failsafe.Props.C02.retry_abort_stops", "Failsafe.Props.C02.retry_exhausted_passthrough",
                           "Failsafe.Props.C02.retryOnFailure_failed", "Failsafe.Props.C02.retryOnFailure_exceeded", "Failsafe.Props.C02.retryOnFailure_not_done",
                           "Failsafe.Props.C02.retry_stops_after_max_duration"],
-    "diff": [COMPOSE_DIFF], "rule": COMPOSE_RULE, "assumptions": COMPOSE_ASSUME, "runners": [runner_retrytiming_maxduration],
+    "diff": [COMPOSE_DIFF], "rule": COMPOSE_RULE, "assumptions": COMPOSE_ASSUME, "runners": [runner_retrytiming_maxduration,
+                stress_runner("shared", "an execution through a retry policy shared by concurrent and successive executions did not get exactly its own budget of invocations")],
     "modelled": COMPOSE_MODELLED + ["max duration: in the model `ElapsedTime() > maxDuration` holds exactly when a 'sleeping' outcome (75 ms against a 45 ms max duration) has occurred in the execution; scripts with sleeping outcomes contain no blocking ones and no hedge; the delay clamp is C13",
                                     "concurrent executions sharing one policy: the executor state is per execution by construction (ToExecutor body fact); schedules are sampled by the C14 stress run"],
     "manifest": {
